@@ -816,7 +816,7 @@ func scForInDelete(r *h.Rng) *prog {
 
 // "A property name must not be visited more than once in any enumeration" (12.6.4): deleting the own,
 // already visited, current property must not make an inherited property of the same name appear
-// (otto: Dev region forin_revisit).  All properties enumerable; only the start object is deleted from.
+// (repaired defect, formerly region forin_revisit).  All properties enumerable; only the start object is deleted from.
 func scForInRevisit(r *h.Rng) *prog {
 	p := &prog{}
 	p.inh()
@@ -959,7 +959,7 @@ func scForInWith(r *h.Rng) *prog {
 }
 
 // completion values (observed through eval): V is the value of the last body evaluation that had one;
-// continue keeps it; `break` keeps it too (otto: Dev region forin_break_value); zero iterations
+// continue keeps it; `break` keeps it too (repaired defect, formerly region forin_break_value); zero iterations
 // leave the value of the statements before
 func scForInValue(r *h.Rng) *prog {
 	p := &prog{}
@@ -1049,11 +1049,47 @@ func scLabels(r *h.Rng) *prog {
 	return p
 }
 
+// duplicated parameter names and the arguments object (10.6 step 11: indx runs down from the number
+// of ARGUMENTS, so with fewer arguments than parameters an earlier duplicate IS the mapped one:
+// function f(a, a) { arguments[0] = 7; return a } f(1) gives 7, f(1, 2) gives 2)
+func scDupParams(r *h.Rng) *prog {
+	p := &prog{}
+	pats := [][]string{{"a", "a"}, {"a", "b", "a"}, {"a", "a", "a"}, {"a", "a", "b"}, {"b", "a", "a"}, {"a", "b", "b", "a"}}
+	params := pats[r.Intn(len(pats))]
+	var body []m.N
+	report := func() {
+		body = append(body, lg(m.Var("a")), lg(m.Var("b")), lg(m.Get(m.Var("arguments"), "length")))
+		for i := 0; i <= len(params); i++ {
+			body = append(body, lg(m.GetE(m.Var("arguments"), m.Num(i))))
+		}
+	}
+	report()
+	for k := 1 + r.Intn(3); k > 0; k-- {
+		switch r.Intn(4) {
+		case 0, 1:
+			body = append(body, m.X(m.SetE(m.Var("arguments"), m.Num(r.Intn(len(params)+1)), m.Num(700+k))))
+		case 2:
+			body = append(body, m.X(m.Asg(pickS(r, []string{"a", "b"}), m.Num(900+k))))
+		default:
+			body = append(body, lg(m.DelE(m.Var("arguments"), m.Num(r.Intn(len(params))))))
+		}
+		report()
+	}
+	body = append(body, m.Ret(m.Var("a")))
+	p.decl("f", m.Fn{Name: "f", Params: params, Vars: []string{"b"}, Body: body})
+	// fewer arguments than (duplicated) parameters, exactly as many, more
+	for k := 1 + r.Intn(3); k > 0; k-- {
+		p.add(lg(m.CallV("f", nums(r, r.Intn(len(params)+2))...)))
+	}
+	p.add(lg(m.CallV("f", nums(r, 1)...)))
+	return p
+}
+
 func init() {
 	fnScenarios = append(fnScenarios, []fnScenario{
 		{"with-lookup", scWithLookup}, {"with-closure", scWithClosure}, {"with-this", scWithThis}, {"with-var", scWithVar},
 		{"with-delete", scWithDelete}, {"with-nested", scWithNested}, {"with-exit", scWithExit}, {"with-null", scWithNull},
 		{"forin-chain", scForInChain}, {"forin-special", scForInSpecial}, {"forin-return", scForInReturn}, {"forin-labels", scForInLabels},
 		{"forin-delete", scForInDelete}, {"forin-revisit", scForInRevisit}, {"forin-empty", scForInEmpty}, {"forin-with", scForInWith}, {"forin-value", scForInValue},
-		{"labels", scLabels}}...)
+		{"labels", scLabels}, {"dup-params", scDupParams}}...)
 }
